@@ -743,7 +743,7 @@ class Executor(Generic[TContext]):
             result = resolve_fn(source, info, **args)
 
             if self.is_awaitable(result):
-                if isinstance(result, Future) and not result.done():
+                if isinstance(result, Future):
                     # work that is already running when it is handed over
                     self.track_running_future(result)
                 return self.complete_awaitable_value(
@@ -1051,6 +1051,8 @@ class Executor(Generic[TContext]):
         work: it is cancelled together with the pending incremental work, and the
         hook signaling that all asynchronous work has finished waits for it.
         """
+        if future.done():
+            return
         self.track_incremental_future(future)
         background_futures = self.background_futures
         background_futures.add(future)
@@ -1339,6 +1341,8 @@ class Executor(Generic[TContext]):
                     ) from raw_error
 
                 if is_awaitable(item):
+                    if isinstance(item, Future):
+                        self.track_running_future(item)
                     append_completed(
                         complete_awaitable_list_item_value(
                             item,
@@ -1491,6 +1495,8 @@ class Executor(Generic[TContext]):
                 item_path = path.add_key(index, None)
 
                 if is_awaitable(item):
+                    if isinstance(item, Future):
+                        self.track_running_future(item)
                     append_completed(
                         complete_awaitable_list_item_value(
                             item,
